@@ -30,7 +30,8 @@ Definition out_code (r : outcome) : N := match r with Normal => 0 | Raised false
 (* run the program with the fuse at j, observe; then run emptyTrash fault-free and observe again *)
 Definition final (e : files) (pre : list prog) (p : prog) (h : bool) (j : option nat) : (list (list N)) * bool :=
   let s0 := run_pre shipped pre (init e) in
-  let s1 := mkst (cur s0) (sql s0) (ptr s0) (fs s0) (ext s0) (dcache s0) j h false in
+  (* every run of the implementation opens a fresh Butler on a copy of the repository: its dimension record cache is empty *)
+  let s1 := mkst (cur s0) (sql s0) (ptr s0) (fs s0) (ext s0) None j h false in
   let (s2, r) := exec shipped p s1 in
   let fired := match j with Some _ => match fuse s2 with None => true | Some _ => false end | None => false end in
   let s3 := fst (exec shipped (POp EmptyTrash) (set_fuse None s2)) in
